@@ -122,7 +122,7 @@ class Report:
         for b in self.bounded:
             if not b.ok:
                 f = listed.get(b.id)
-                if not (f is not None and (f.get('witness') is None or f.get('witness') == b.input)):
+                if f is None:
                     out.append(b)
         return out
 
@@ -162,7 +162,9 @@ class Report:
             if b.ok:
                 continue
             f = listed.get(b.id)
-            if f is not None and (f.get('witness') is None or f.get('witness') == b.input):
+            # bounded case ids name a failure CLASS (call site / cause / shape); the stored witness is only the first member a run met,
+            # which differs between tiers and seeds: a listed class matches by id
+            if f is not None:
                 seen_known.add(b.id)
                 kf_lines.append(f"KNOWN-FINDING: property={self.prop} {b.id} {f['what']}")
             else:
